@@ -4,6 +4,7 @@ CONSTANTS
   PayloadSizes = {0, 1, 100, 16000, 16400, 2097000, 2097152}
   FilterCounts = {0, 1, 2}
   BigSizes = {268435450, 268435451, 268435452, 268435453}
+  ManyCounts = {4096}
   Thorough = FALSE
 SPECIFICATION Spec
 INVARIANTS C09_DenyExactlyInvalid C09_WithinLimits
